@@ -404,6 +404,11 @@ def load_octree_for_query(
             page_bytes = source.read(entry.byte_size)
             page = HierarchyPage.from_bytes(page_bytes)
             hierarchy_page.entries.update(page.entries)
+            if hierarchy_page.entries[current_node.key].point_count == -1:
+                raise LaspyException(
+                    f"Invalid COPC hierarchy: the page referenced for {current_node.key} "
+                    "does not describe that node"
+                )
             nodes_to_load.insert(0, current_node)
             continue
         elif entry.point_count >= 0:
